@@ -454,9 +454,8 @@ def handle (toks : List String) : String :=
         else match Http.legacyPick ib.length o with
           | (true, o') => (ib, o')
           | (false, o') => (db, o')
-      (match Http.httpRead file o' l with
-       | .ok b => s!"ok {bytesToHex b} local {bytesToHex (Http.localRead file o' l)}"
-       | .error _ => s!"IOError local {bytesToHex (Http.localRead file o' l)}")
+      let sh (r : Except Http.Err Bytes) : String := match r with | .ok b => s!"ok {bytesToHex b}" | .error _ => "IOError"
+      s!"{sh (Http.httpRead file o' l)} local {sh (Http.fileRead file o' l)}"
     | _, _, _, _ => "bad-request"
   | ["convert-plan", dst, src] =>
     -- keys visited by convert_chunks, each with the verdict of the SOURCE's grid test
